@@ -223,7 +223,10 @@ def gen_load_cases(ctx, nobj):
             else:
                 ctx.count("load: single mutation")
             for part in lab.split(" + "):
-                ctx.count("load mutation kind: " + " ".join(part.split()[:2]))
+                w = part.split()
+                two = w[0] in ("delete", "duplicate", "drop", "repeat", "add", "empty", "struct", "top", "shuffle", "rotate", "unknown",
+                               "reshape", "consistent", "calendar", "swap", "enum")
+                ctx.count("load mutation kind: " + " ".join(w[:2] if two else w[:1]))
             cases.append((m, lab))
     return cases
 
